@@ -140,6 +140,7 @@ var Mutants = map[string][]Mutant{
 		{"Windings looks at the whole path only", "path.go", `\tfor _, pi := range p\.Split\(\) \{\n\t\tzs := pi\.RayIntersections\(x, y\)`, "\tfor _, pi := range []*Path{p} {\n\t\tzs := pi.RayIntersections(x, y)", "E9.subpaths"},
 	},
 	"C07": {
+		{"ShearAbout shears first and translates by the sheared pivot offset", "util.go", `return m\.Translate\(x, y\)\.Shear\(sx, sy\)\.Translate\(-x, -y\)`, "return m.Shear(sx, sy).Translate(-sx*y, -sy*x)", "E11.about-is-conjugation"},
 		{"Shear updates the entries of the receiver one after the other", "util.go", `(?s)(func \(m Matrix\) Shear\(sx, sy float64\) Matrix \{\n)\treturn m\.Mul\(Matrix\{\n[^\n]*\n[^\n]*\n\t\}\)\n`, "${1}\tm[0][0] += sy * m[0][1]\n\tm[1][1] += sx * m[1][0]\n\tm[0][1] += sx * m[0][0]\n\tm[1][0] += sy * m[1][1]\n\treturn m\n", "E11.matrix-composers"},
 		{"RotateAbout adds the pivot correction into the translation column", "util.go", `return m\.Translate\(x, y\)\.Rotate\(rot\)\.Translate\(-x, -y\)`, "sintheta, costheta := math.Sincos(rot * math.Pi / 180.0)\n\tm = m.Rotate(rot)\n\tm[0][2] += x - (costheta*x - sintheta*y)\n\tm[1][2] += y - (sintheta*x + costheta*y)\n\treturn m", "E11.matrix-composers"},
 		{"translation of the inverse uses the wrong cofactor", "util.go", `-\(-m\[1\]\[0\]\*m\[0\]\[2\] \+ m\[0\]\[0\]\*m\[1\]\[2\]\) / det,`, "-(-m[0][1]*m[0][2] + m[0][0]*m[1][2]) / det,", "E11.matrix-inverse"},
@@ -166,6 +167,7 @@ var Mutants = map[string][]Mutant{
 		{"Rect.Add max reads the low field", "util.go", `x1 := math\.Max\(r\.X1, q\.X1\)`, `x1 := math.Max(r.X1, q.X0)`, "E3.mirror"},
 	},
 	"C09": {
+		{"Reverse sets the next sub-path's start before writing the pending Close", "path.go", `(?s)(\t\tcase MoveToCmd:\n)(\t\t\tif closed \{\n\t\t\t\tq\.d = append\(q\.d, CloseCmd, first\.X, first\.Y, CloseCmd\)\n\t\t\t\tclosed = false\n\t\t\t\}\n)`, "${1}\t\t\tif i != 0 {\n\t\t\t\tfirst = end\n\t\t\t}\n${2}", "E11.close-uses-own-start"},
 		{"line case of SplitAt claims [T, T+dT)", "path.go", `(case LineToCmd, CloseCmd:\n(?:[^\n]*\n){0,12}?[^\n]*for j < len\(ts\) && )T < ts\[j\] && ts\[j\] <= T\+dT \{`, "${1}T <= ts[j] && ts[j] < T+dT {", "E11.cut-interval"},
 		{"leading zero stripped before the cut list is sorted", "path.go", `(?s)\tts = append\(\[\]float64\{\}, ts\.\.\.\) // don't sort the caller's slice\n\tsort\.Float64s\(ts\)\n\tif ts\[0\] == 0\.0 \{\n\t\tts = ts\[1:\]\n\t\}\n`, "\tif ts[0] == 0.0 {\n\t\tts = ts[1:]\n\t}\n\tif !sort.Float64sAreSorted(ts) {\n\t\tts = append([]float64{}, ts...)\n\t\tsort.Float64s(ts)\n\t}\n", "E11.cuts-sorted-before-use"},
 		{"remainder of a wide elliptical arc integrated from zero", "path_util.go", `(\treturn gaussLegendre5\(speed, theta1, theta2\)\n)`, "\tif dtheta := theta2 - theta1; math.Pi < dtheta {\n\t\treturn gaussLegendre5(speed, 0.0, math.Pi) + gaussLegendre5(speed, 0.0, dtheta-math.Pi)\n\t}\n${1}", "E11.quadrature-covers-arc"},
@@ -297,6 +299,7 @@ var Mutants = map[string][]Mutant{
 		{"rasterizer ignores the fill rule", "renderers/rasterizer/rasterizer.go", `\t\tr\.scanner\.SetWinding\(style\.FillRule != canvas\.EvenOdd\)\n`, ``, "E6.style-field"},
 	},
 	"C15": {
+		{"Context.Translate adds to the translation column of the view", "canvas.go", `(func \(c \*Context\) Translate\(x, y float64\) \{\n)\tc\.view = c\.view\.Mul\(Identity\.Translate\(x, y\)\)`, "${1}\tc.view[0][2] += x\n\tc.view[1][2] += y", "E11.view-postmul"},
 		{"DrawImage reflects about half the far corner of the image rectangle", "canvas.go", `(?s)(func \(c \*Context\) DrawImage\(.*?)m = m\.ReflectYAbout\(float64\(img\.Bounds\(\)\.Size\(\)\.Y\) / 2\.0\)`, "${1}m = m.ReflectYAbout(float64(img.Bounds().Max.Y) / 2.0)", "E11.image-extent-from-size"},
 		{"Clip translates each layer matrix on the right", "canvas.go", `\tc\.Transform\(Identity\.Translate\(-rect\.X0, -rect\.Y0\)\)\n`, "\tfor _, layers := range c.layers {\n\t\tfor i := range layers {\n\t\t\tlayers[i].m = layers[i].m.Translate(-rect.X0, -rect.Y0)\n\t\t}\n\t}\n", "E11.layer-matrix-left"},
 		{"coordinate-system matrix cached when the system is set", "canvas.go", `(?s)(\tcoordSystem CoordSystem\n\})(.*?)func \(c \*Context\) CoordSystemView\(\) Matrix \{\n\t// a function since renderer's width/height may change\n\tswitch c\.coordSystem \{(.*?\n\}\n)(.*?)(\tc\.coordSystem = coordSystem\n)`, "\tcoordSystem CoordSystem\n\tsystemView  Matrix\n}${2}func (c *Context) CoordSystemView() Matrix {\n\treturn c.systemView\n}\n\nfunc (c *Context) coordSystemMatrix(coordSystem CoordSystem) Matrix {\n\tswitch coordSystem {${3}${4}${5}\tc.systemView = c.coordSystemMatrix(coordSystem)\n", "E11.draw-matrix"},
